@@ -418,8 +418,25 @@ class _Law(object):
         for j, p in enumerate(c["present"]):
             if p:
                 nm = c["argnames"][j]
-                out["uk_" + nm] = self.val(nm, c["alt"][nm])
+                out["uk_" + nm] = self.keyval(nm, c["alt"][nm])
+        if c.get("tform") == "expr":
+            # the temperature is a programme of "time" held IN the mapping
+            from chempy.kinetics.rates import RampedTemp
+            r = c["ramp"]
+            out["temperature"] = RampedTemp([self.plain(r["T0"], "K"), self.plain(r["dTdt"], "K/s")])
+            out["time"] = self.plain(r["time0"], "s")
         return out
+
+    def plain(self, x, ustr):
+        v = float(_num(x))
+        return v * _unit(ustr) if self.units else v
+
+    def keyval(self, name, x):
+        """override value of the unique key at this argument's position (unit of the derived argument)"""
+        if self.units:
+            ku = self.c["key_units"][name]
+            return float(_num(x) / Fraction(*ku["f"])) * _unit(ku["u"])
+        return float(_num(x))
 
     # evaluation of an Expr-like callable under the mode
     def run(self, fn, variables, **kw):
@@ -437,9 +454,10 @@ class _Law(object):
             import numpy as np
             return fn(variables, np, **kw)       # the store already holds np.float64 scalars
         import sympy
-        syms = {k: sympy.Symbol(k.replace("_", "")) for k in variables}
-        r = fn(dict(syms), sympy, **kw)
-        sub = {syms[k]: sympy.Rational(*Fraction(variables[k]).as_integer_ratio()) for k in variables}
+        from chempy.util._expr import Expr as _E
+        syms = {k: sympy.Symbol(k.replace("_", "")) for k in variables if not isinstance(variables[k], _E)}
+        r = fn(dict(variables, **syms), sympy, **kw)
+        sub = {syms[k]: sympy.Rational(*Fraction(variables[k]).as_integer_ratio()) for k in syms}
         if hasattr(r, "magnitude"):      # quantity wrapping a sympy expression (defaulted 1 molar)
             r = r.magnitude.item() if hasattr(r.magnitude, "item") else r.magnitude
         return sympy.sympify(r).subs(sub)
@@ -625,8 +643,12 @@ class _Law(object):
 def _snapshot(V):
     """structural snapshot of a variables mapping: per key (type name, unit text, values)"""
     import numpy as np
+    from chempy.util._expr import Expr as _E
     out = {}
     for k, v in V.items():
+        if isinstance(v, _E):
+            out[k] = [type(v).__name__, "expr", repr(v)]
+            continue
         unit = str(getattr(v, "dimensionality", ""))
         mag = getattr(v, "magnitude", v)
         out[k] = [type(v).__name__, unit, [float(x) for x in np.atleast_1d(np.asarray(mag, dtype=float))]]
@@ -691,18 +713,31 @@ def laws_case(case):
             return {"raise": _exc(e), "tb": traceback.format_exc()[-600:], "step": 0}
         if law.mode == "numpy":
             import numpy as np
+            from chempy.util._expr import Expr as _E
             for k in list(V):
-                V[k] = np.float64(V[k])
+                if not isinstance(V[k], _E):
+                    V[k] = np.float64(V[k])
         before = _snapshot(V)
+        first_before = before
         steps = []
+        moved = []
         for i, who in enumerate(c["hist"], 1):
+            if who == "update":
+                # the caller changes a variable: everything else must still be what was passed in
+                now = _snapshot(V)
+                moved += [k for k in before if before[k] != now.get(k)]
+                r = c["ramp"]
+                V["time"] = law.plain(r["time1"], "s") if law.mode != "numpy" else __import__("numpy").float64(law.plain(r["time1"], "s"))
+                before = _snapshot(V)
+                steps.append({"who": who})
+                continue
             try:
                 steps.append({"who": who, "vals": law.project(fns[who](V))})   # projected at once: no aliasing
             except Exception as e:
                 import traceback
                 steps.append({"who": who, "raise": _exc(e), "tb": traceback.format_exc()[-600:]})
         after = _snapshot(V)
-    return {"steps": steps, "changed": sorted(k for k in before if before[k] != after.get(k)),
+    return {"steps": steps, "changed": sorted(set(moved) | set(k for k in before if before[k] != after.get(k))),
             "store_keys_changed": sorted(set(before) ^ set(after)),
             "before": {k: before[k] for k in before if before[k] != after.get(k)},
             "after": {k: after[k] for k in before if before[k] != after.get(k)}}
@@ -748,6 +783,8 @@ def judge_laws(case, obs):
             bad.append(({"clause": "frame"}, {"observed": obs["changed"], "expected": "variables unchanged"}))
         return bad
     for n, (st, est) in enumerate(zip(obs["steps"], exp["steps"]), 1):
+        if est["who"] == "update":
+            continue
         key = {"step": n, "who": est["who"], "hist": "-".join(case["in"]["hist"])}
         if "raise" in st:
             bad.append((dict(key, clause="raises", exc=st["raise"]["raised"]), {"observed": st, "expected": "a value"}))
@@ -835,9 +872,9 @@ def _nontrivial(case):
     return True
 
 
-SLICES_Q = [("resolve_q", ["SetClass", "GenArgs", "GenKeys", "GenVars", "GenResolve"], 700),
-            ("algebra_q", ["GenLeaf", "GenOp", "GenNeg", "FinishTree"], 700),
-            ("laws_q", ["ChooseLaw", "GenPset", "GenTemp", "Evaluate", "GenStep", "GenFinishHist"], 2300)]
+SLICES_Q = [("resolve_q", ["SetClass", "GenArgs", "GenKeys", "GenVars", "GenResolve"], 500),
+            ("algebra_q", ["GenLeaf", "GenOp", "GenNeg", "FinishTree"], 600),
+            ("laws_q", ["ChooseLaw", "GenPset", "GenTemp", "Evaluate", "GenStep", "GenFinishHist"], 2100)]
 SLICES_T = [("resolve_t", [], None), ("algebra_t", [], 40000), ("algebra_t4", [], 40000), ("laws_t", [], None)]
 
 
